@@ -90,17 +90,38 @@ def _validate(case):
     if case["defs"]:
         dd = DefinitionDict(case["defs"], sch)
         if dd.issues or len(dd.defs) != len(case["defs"]):
-            return None, f"definitions not accepted: {case['defs']}"
+            return None, f"definitions not accepted: {case['defs']}", None
     hs = HedString(case["text"], sch, def_dict=dd)
     issues = hs.validate(allow_placeholders=case["allow_placeholders"])
-    return issues, None
+    # the same object asked again, and a long-lived validator that has seen other annotations, must agree
+    again = hs.validate(allow_placeholders=case["allow_placeholders"])
+    if _codes(again) != _codes(issues):
+        return issues, None, f"second validate() of one object: {_codes(issues)} then {_codes(again)}"
+    if dd is None:
+        from hed.validator.hed_validator import HedValidator
+        if case["version"] not in _shared_validators:
+            _shared_validators[case["version"]] = HedValidator(sch)
+        third = _shared_validators[case["version"]].validate(HedString(case["text"], sch),
+                                                             allow_placeholders=case["allow_placeholders"])
+        if _codes(third) != _codes(issues):
+            return issues, None, f"reused HedValidator: fresh {_codes(issues)} reused {_codes(third)}"
+    return issues, None, None
+
+
+_shared_validators = {}
+
+
+def _codes(issues):
+    return sorted((i["code"], i["severity"]) for i in issues)
 
 
 def oracle_valid(case):
     out = Outcome()
-    issues, err = _validate(case)
+    issues, err, unstable = _validate(case)
     if err:
         return out.bad("valid-definition-rejected", err)
+    if unstable:
+        out.bad("verdict-depends-on-object-history", f"{case['version']}: {case['text']!r}: {unstable}")
     errs = [i for i in issues if i["severity"] == 1]
     out.nontrivial = case["ntags"] >= 2 and (case["depth"] >= 1 or case.get("rich", False))
     out.classes = tuple(c for c, ok in (("depth>=2", case["depth"] >= 2), ("defs", bool(case["defs"])),
@@ -114,9 +135,11 @@ def oracle_valid(case):
 
 def oracle_mutated(case):
     out = Outcome(nontrivial=True, classes=("mut:" + case["mutation"],))
-    issues, err = _validate(case)
+    issues, err, unstable = _validate(case)
     if err:
         return out.bad("valid-definition-rejected", err)
+    if unstable:
+        out.bad("verdict-depends-on-object-history", f"{case['version']}: {case['text']!r}: {unstable}")
     codes = {i["code"] for i in issues if i["severity"] == 1}
     if case["expect"] not in codes:
         out.bad(f"mutation-not-flagged:{case['mutation']}:{case['expect']}",
